@@ -371,7 +371,7 @@ func cmdRun(args []string) int {
 		defer os.RemoveAll(work)
 	}
 	if pd.Meta != nil {
-		return runMeta(pd, *tier, seed, *workers, work)
+		return runMeta(pd, *tier, seed, *workers, work, *only)
 	}
 	jobs := pd.Jobs(*tier)
 	if *only != "" {
@@ -384,6 +384,20 @@ func cmdRun(args []string) int {
 		jobs = f
 	}
 	rep := newReport(pd, *tier, seed)
+	if pd.InPkgProbe != nil {
+		if msg := pd.InPkgProbe(work); msg != "" {
+			os.Setenv(noInPkgEnv, "1")
+			var f []sym.Job
+			for _, j := range jobs {
+				if j.Pkg != pd.OptionalInPkg {
+					f = append(f, j)
+				}
+			}
+			fmt.Printf("NOTE property=%s the in-package harness does not compile against this tree and its %d jobs were skipped (unexported identifiers changed?): %s\n", pd.ID, len(jobs)-len(f), strings.ReplaceAll(strings.TrimSpace(msg), "\n", " | "))
+			rep.assumptions["in-package harness skipped: it does not compile against this tree (it reads unexported fields); the jobs through the public API remain"] = true
+			jobs = f
+		}
+	}
 	if pd.PreCheck != nil {
 		rep.incon = append(rep.incon, pd.PreCheck()...)
 	}
@@ -463,7 +477,7 @@ func isFlagSet(fs *flag.FlagSet, name string) bool {
 }
 
 // runMeta decides a property (C18) through the write-set monitor of the jobs of other properties.
-func runMeta(pd *PropDef, tier string, seed int64, workers int, work string) int {
+func runMeta(pd *PropDef, tier string, seed int64, workers int, work string, only string) int {
 	t0 := time.Now()
 	rep := newReport(pd, tier, seed)
 	total := &runSummary{functions: map[string]bool{}, models: map[string]bool{}, stdGlobals: map[string]bool{}}
@@ -479,6 +493,9 @@ func runMeta(pd *PropDef, tier string, seed int64, workers int, work string) int
 		all := sp.Jobs(tier)
 		var jobs []sym.Job
 		for i, j := range all {
+			if only != "" && !strings.Contains(j.ID, only) {
+				continue
+			}
 			if src.Stride <= 1 || i%src.Stride == int(seed)%src.Stride {
 				j.ID = pd.ID + "<-" + j.ID
 				jobs = append(jobs, j)
